@@ -126,12 +126,18 @@ func (cache *HevcCache) getPalyloadType(payload []byte) (vps, sps, pps, islice b
 		// 循环读取被封装的NAL
 		for {
 			// nal长度
+			if off+2 > len(payload) { // truncated size field
+				return
+			}
 			nalSize := ((uint16(payload[off])) << 8) | uint16(payload[off+1])
 			if nalSize < 1 {
 				return
 			}
 
 			off += 2
+			if off >= len(payload) { // size field without a NAL unit
+				return
+			}
 			naluType = (payload[off] >> 1) & 0x3f
 			cache.nalType(naluType, &vps, &sps, &pps, &islice)
 			off += int(nalSize)
